@@ -134,7 +134,7 @@ func init() {
 		ID:        "C20",
 		Technique: "runtime monitor: equality of the complete outcome tuple (values, remaining, error text, warnings, help text, completion list) over 25 fresh in-process repetitions (Go randomises every map iteration) and over separate driver processes",
 		Rule: "case = definition with >=2 entries in every table at once (>=2 missing required options at Parse level and at Dispatch level, >=2 unknown options, >=2 ambiguity candidates, >=2 commands, >=2 options / commands / suggestions matching a completion prefix) x several inputs; " +
-			"every input is executed 25 times in process (fresh program each time) and, for every 8th case, in 3 separate processes; distinct = (definition shape, input kind); non-trivial = the input makes at least two alternatives eligible (2 missing required, 2 unknown, 2 candidates ...)",
+			"every input is executed 25 times in process (fresh program each time) and, for every 8th case, in 3 separate processes; distinct = (definition shape, input kind); non-trivial = the input makes at least two alternatives eligible (2 missing required, 2 unknown, 2 candidates ...)" + genDims,
 		Cases: func(tier string) int { return tierN(tier, 600, 20000) },
 		Run: func(seed uint64, idx int, tier string) *fw.Result {
 			r := CaseRng(seed, "C20", idx)
